@@ -287,7 +287,7 @@ fn run_random_shard<P: Prop>(
     let cfg = Config {
         cases,
         failure_persistence: None,
-        max_shrink_iters: 50_000,
+        max_shrink_iters: 4_000,
         max_global_rejects: cases.saturating_mul(4).max(65_536),
         max_local_rejects: 1 << 20,
         verbose: 0,
